@@ -3,4 +3,4 @@ package main
 
 import "verif.local/harness/sw"
 
-func main() { sw.MainC08() }
+func main() { sw.MainC08R7() }
